@@ -37,6 +37,21 @@ ELEM_OF_RECV = {
 }
 
 
+# std combinators that call their closure argument at most once (FnOnce parameters)
+ONCE = {
+    'std::option::Option::map_or', 'std::option::Option::map', 'std::option::Option::and_then',
+    'std::option::Option::filter', 'std::option::Option::map_or_else', 'std::option::Option::is_some_and',
+    'std::option::Option::is_none_or', 'std::option::Option::inspect', 'std::option::Option::unwrap_or_else',
+    'std::option::Option::or_else', 'std::option::Option::ok_or_else', 'std::option::Option::get_or_insert_with',
+    'std::option::Option::take_if',
+    'std::result::Result::map', 'std::result::Result::map_err', 'std::result::Result::and_then',
+    'std::result::Result::unwrap_or_else', 'std::result::Result::or_else', 'std::result::Result::map_or',
+    'std::collections::hash_map::Entry::or_insert_with', 'std::collections::hash_map::Entry::and_modify',
+    'std::collections::hash_map::Entry::or_insert_with_key',
+    'std::bool::then', 'futures::FutureExt::map', 'std::task::Poll::map',
+}
+
+
 class Graph:
     def __init__(self, facts, root_key):
         self.facts = facts
@@ -102,6 +117,28 @@ def _operand_type(op):
     if op['o'] in ('copy', 'move'):
         return op['pl']['t']
     return op.get('t')
+
+
+def _two_valued(facts, fx, op):
+    """is the switch operand a bool or the discriminant of a two-variant enum?"""
+    if op['o'] not in ('copy', 'move'):
+        return False
+    pl = op['pl']
+    t = facts.types[pl['t']]
+    if t['s'] == 'bool':
+        return True
+    if pl['p']:
+        return False
+    ds = fx.defs.get(pl['l'], [])
+    if len(ds) != 1 or ds[0][0] != 'rv' or ds[0][1]['r'] != 'discr':
+        return False
+    et = facts.types[facts.strip_refs(ds[0][1]['pl']['t'])]
+    if et['k'] != 'adt':
+        return False
+    if et['p'] in ('std::option::Option', 'std::result::Result', 'std::task::Poll', 'std::ops::ControlFlow'):
+        return True
+    a = facts.adts.get(et['p'])
+    return bool(a) and len(a['variants']) == 2
 
 
 def build(facts, root_key, max_depth=MAX_DEPTH, inline=True, no_inline=()):
@@ -170,7 +207,10 @@ def _inline(g, key, amap, ctx, depth, max_depth, do_inline, no_inline):
             vals = [v for v, _ in t['v']]
             for v, tb in t['v']:
                 g.edge(n, starts[tb], 'n', ('sw', d, v))
-            g.edge(n, starts[t['o']], 'n', ('sw', d, ('not', tuple(vals))))
+            other = ('not', tuple(vals))
+            if len(vals) == 1 and vals[0] in (0, 1) and _two_valued(facts, fx, t['d']):
+                other = 1 - vals[0]
+            g.edge(n, starts[t['o']], 'n', ('sw', d, other))
         elif k == 'ret':
             rets.append(cur['id'])
         elif k in ('resume',):
@@ -308,7 +348,13 @@ def _call(g, fx, key, ctx, bi, t, cur, starts, unws, tr, depth, max_depth, do_in
         ex = g.new('exit', key, ctx, bb=bi, sp=sp, name='<closure>', callee=None, args=[a], arg_tys=[aty], value=('unknown', 'closure result'), dest=None, fnptr=None, body=cd, via=name)
         for r in rets:
             g.edge(g.nodes[r], ex)
-        g.edge(ex, j)  # may run again
+        if name in ONCE:
+            j2 = g.new('join', key, ctx, bb=bi, sp=sp)
+            g.edge(j, j2)      # not called
+            g.edge(ex, j2)     # called once
+            j = j2
+        else:
+            g.edge(ex, j)  # may run again
         for u in cunws:
             if uw is not None:
                 g.edge(g.nodes[u], uw, 'u')
